@@ -14,16 +14,18 @@ core/trie2/trienode/node.go, core/trie2/hasher.go).  Core Lean only (linked into
   (`HashNode`, `ValueNode`, nil = `Tag`) and the cached hash of `nodeFlag.Hash` — both are read by
   `trie2.VerifyProof`, so they are part of the model.
 * `verifyL` transcribes `trie.VerifyProof`, `verify2` transcribes `trie2.VerifyProof`
-  (`hasher.hash`, `get(node, key, false)`).  `Cfg` says which of the two places where the trie2
-  verifier of today leaves the property are present in the code the harness looks at
-  (the harness probes the real code and passes the flags).
+  (`hasher.hash`, `get(node, key, false)`).  `Cfg` says which of the places where the verifiers of
+  today leave the property are present in the code the harness looks at (the harness probes the
+  real code and passes the flags).
 -/
 namespace Juno.C10
 
 abbrev Path := List Bool
 
 /-- `BitArray.Felt()`: the bits as a big-endian number. -/
-def pathVal (p : Path) : Nat := p.foldl (fun acc b => 2 * acc + (if b then 1 else 0)) 0
+def pathVal : Path → Nat
+  | [] => 0
+  | b :: p => (if b then 2 ^ p.length else 0) + pathVal p
 
 structure HashAlg (H : Type) where
   zero : H
@@ -167,6 +169,34 @@ def Trie.prove (A : HashAlg H) (legacy cached : Bool) (t : Trie H) (k : Path) : 
   | none => []
   | some t => toPSet A (t.proveNodes A legacy cached k)
 
+/-! ### The trie of a key/value set (the Starknet definition; used by the driver to rebuild the
+tree the real tries hold, so that `proveNodes` can be compared with the real `Prove`) -/
+
+/-- prepend a path to a subtree, merging with an edge below (no edge under an edge) -/
+def mkEdge (p : Path) (c : Tree H) : Tree H :=
+  match p with
+  | [] => c
+  | _ => match c with
+    | .edge q d => .edge (p ++ q) d
+    | _ => .edge p c
+
+def keysUnder (b : Bool) (kvs : List (Path × H)) : List (Path × H) :=
+  kvs.filterMap (fun kv => match kv.1 with
+    | x :: t => if x = b then some (t, kv.2) else none
+    | [] => none)
+
+/-- the tree of height `h` holding `kvs` (keys of length `h`, distinct); `none` = empty -/
+def build : Nat → List (Path × H) → Trie H
+  | 0, kvs => match kvs with
+    | (_, v) :: _ => some (.leaf v)
+    | [] => none
+  | h + 1, kvs =>
+    match build h (keysUnder false kvs), build h (keysUnder true kvs) with
+    | none, none => none
+    | some a, none => some (mkEdge [false] a)
+    | none, some b => some (mkEdge [true] b)
+    | some a, some b => some (.bin a b)
+
 /-! ### Verifiers -/
 
 inductive Res (H : Type) where
@@ -184,6 +214,24 @@ def pathCompat (a b : Path) : Bool := a.isPrefixOf b || b.isPrefixOf a
 /-- Iteration bound of the verifier loops (`for { … }` in Go). Every iteration of an accepting run
 on a well-formed trie consumes at least one of at most 255 key bits. -/
 def verifyFuel : Nat := 600
+
+/-- The places where the verifiers of today leave the property; the harness probes the real code
+and tells the driver which variant it is looking at.
+`trustCache` (trie2): `hasher.hash` returns `nodeFlag.Hash` of the proof node when it is set instead
+of recomputing.  `earlyValue` (trie2): a child of Go type `ValueNode` ends the walk with that felt
+as the value even when key bits remain.  `zeroRoot` (both): `false` = a zero root (empty trie) is
+looked up in the node set like any other hash, so the empty proof of the empty trie is rejected;
+`true` = a zero root means every key is absent. -/
+structure Cfg where
+  trustCache : Bool
+  earlyValue : Bool
+  zeroRoot : Bool
+  deriving Repr, DecidableEq
+
+/-- the code as it is at the pinned commit -/
+def Cfg.asIs : Cfg := ⟨true, true, false⟩
+/-- the repaired verifiers; also the independent verifier of the harness -/
+def Cfg.strict : Cfg := ⟨false, false, true⟩
 
 /-- `trie.VerifyProof` (core/trie/proof.go:144). `curPos` is a `uint8`. -/
 def verifyLAux [DecidableEq H] (A : HashAlg H) (proof : PSet H) (key : Path) :
@@ -205,22 +253,9 @@ def verifyLAux [DecidableEq H] (A : HashAlg H) (proof : PSet H) (key : Path) :
         let pos := (curPos + p.length) % 256
         if pos ≥ key.length then .ok (c.felt A) else verifyLAux A proof key fuel (c.felt A) pos
 
-def verifyL [DecidableEq H] (A : HashAlg H) (root : H) (key : Path) (proof : PSet H) : Res H :=
-  verifyLAux A proof key verifyFuel root 0
-
-/-- The two places where `trie2.VerifyProof` of today leaves the property.
-`trustCache`: `hasher.hash` returns `nodeFlag.Hash` of the proof node when it is set instead of
-recomputing.  `earlyValue`: a child of Go type `ValueNode` ends the walk with that felt as the
-value even when key bits remain. -/
-structure Cfg where
-  trustCache : Bool
-  earlyValue : Bool
-  deriving Repr, DecidableEq
-
-/-- the code as it is at the pinned commit -/
-def Cfg.asIs : Cfg := ⟨true, true⟩
-/-- the repaired verifier -/
-def Cfg.strict : Cfg := ⟨false, false⟩
+def verifyL [DecidableEq H] (A : HashAlg H) (cfg : Cfg) (root : H) (key : Path) (proof : PSet H) :
+    Res H :=
+  if cfg.zeroRoot && root = A.zero then .ok A.zero else verifyLAux A proof key verifyFuel root 0
 
 /-- `hasher.hash(node)` as used by `trie2.VerifyProof`. -/
 def PNode.hash2 (A : HashAlg H) (cfg : Cfg) (n : PNode H) : H :=
@@ -251,7 +286,7 @@ def verify2Aux [DecidableEq H] (A : HashAlg H) (cfg : Cfg) (proof : PSet H) :
 
 def verify2 [DecidableEq H] (A : HashAlg H) (cfg : Cfg) (root : H) (key : Path) (proof : PSet H) :
     Res H :=
-  verify2Aux A cfg proof verifyFuel root key
+  if cfg.zeroRoot && root = A.zero then .ok A.zero else verify2Aux A cfg proof verifyFuel root key
 
 /-! ### The free term algebra (ideal hash) -/
 
